@@ -984,7 +984,11 @@ func (env *SpecEnv) call(x *SExpr) (*Term, types.Type) {
 				}
 				env.fail("seen(): loop is not a map range")
 			case "called":
-				id, ok := env.e.calledCell[args[0].Name]
+				cname := args[0].Name
+				if args[0].Kind == "sel" && args[0].Args[0].Kind == "id" {
+					cname = args[0].Args[0].Name + "." + args[0].Name
+				}
+				id, ok := env.e.calledCell[cname]
 				if !ok {
 					// a callee's contract applied at a call site: what the callee called is not
 					// observable by the caller
@@ -1024,8 +1028,22 @@ func (env *SpecEnv) call(x *SExpr) (*Term, types.Type) {
 				if len(args) > 1 {
 					idx = args[1].Name
 				}
-				if r, ok := env.e.callResults[args[0].Name+"/"+idx]; ok {
+				rname := args[0].Name
+				if args[0].Kind == "sel" && args[0].Args[0].Kind == "id" {
+					rname = args[0].Args[0].Name + "." + args[0].Name
+				}
+				if r, ok := env.e.callResults[rname+"/"+idx]; ok {
 					return r.v, r.t
+				}
+				if env.atCallSite {
+					env.fail("@skip: callresult() of a callee is not observable at its call sites")
+				}
+				// the call exists in the unit but was not executed on the way here: its result is
+				// not constrained on this path
+				var kk int
+				fmt.Sscan(idx, &kk)
+				if rt := env.e.staticCallResultType(rname, kk); rt != nil {
+					return Fresh("nocall_"+args[0].Name, sortOf(rt)), rt
 				}
 				env.fail("callresult(%s): no such contracted call was executed before this point", args[0].Name)
 			case "fresh":
